@@ -260,7 +260,9 @@ func genMutant(t *rapid.T) Case {
 			}
 			toks[i] = sb.String()
 		case 6: // an extreme number literal in place of a token (overflow, underflow, very long)
-			toks[i] = rapid.SampledFrom([]string{"1e999", "-1e400", "2e308", "1e-400", "1.7976931348623159e308", "-1.7976931348623157e308", "1" + strings.Repeat("0", 310), "0." + strings.Repeat("0", 330) + "7", "9e307", "4.9e-324", "2e-324"}).Draw(t, "extreme")
+			toks[i] = rapid.SampledFrom([]string{"1e999", "-1e400", "2e308", "1e-400", "1.7976931348623159e308", "-1.7976931348623157e308", "1" + strings.Repeat("0", 310), "0." + strings.Repeat("0", 330) + "7", "9e307", "4.9e-324", "2e-324",
+				// whole numbers at and beyond the limits of machine integers
+				"2147483647", "2147483648", "-2147483649", "4294967296", "9007199254740993", "9223372036854775807", "9223372036854775808", "-9223372036854775809", "9300000000000000000", "18446744073709551615", "18446744073709551616", "99999999999999999999"}).Draw(t, "extreme")
 		case 0:
 			toks = append(toks[:i:i], toks[i+1:]...)
 		case 1:
